@@ -83,6 +83,13 @@ def run(tier, seed, replay=None):
            'derivative_spline', 'make_identical']
     for it in range(nobj):
         spec = O.gen_obj(rng, kinds=['open', 'open', 'open', 'periodic'], nint_max=2)
+        force_close = None
+        if it % 6 == 5:
+            # closing a surface / volume in a direction other than the first: needs enough functions in that direction
+            spec = O.gen_obj(rng, kinds=['open'], pardim=rng.choice([2, 3]), nint_max=6, pmax=4)
+            okd = [i for i, bb in enumerate(spec['bases']) if bb['order'] >= 3 and O.nfun(bb) >= 2 * bb['order']]
+            if okd:
+                force_close = rng.choice([i for i in okd if i >= 1] or okd)
         # keep to the regime in which the library's periodic algorithms are defined (see C04/C07/C08 findings)
         if any(b['periodic'] >= 0 and O.nfun(b) < b['order'] + b['periodic'] for b in spec['bases']):
             continue
@@ -93,6 +100,8 @@ def run(tier, seed, replay=None):
             pd = o.pardim
             op = rng.choice(OPS)
             d = rng.randrange(pd)
+            if stepno == 0 and force_close is not None:
+                op, d = 'make_periodic', force_close
             b = o.bases[d]
             args = None
             try:
